@@ -169,7 +169,9 @@ def text(rng, codec, n, kind='any'):
 # ---------------------------------------------------------------------------------------------
 # configurations
 
-DATE_FORMATS = [('%y%m%d%H%M%S', 12), ('%y%m%d', 6), ('%Y%m%d%H%M%S', 14), ('%Y%m%d', 8), ('%y%m', 4)]
+DATE_FORMATS = [('%y%m%d%H%M%S', 12), ('%y%m%d', 6), ('%Y%m%d%H%M%S', 14), ('%Y%m%d', 8), ('%y%m', 4),
+                # formats without a year: the value is read in 1900, whatever today's date is
+                ('%m%d', 4), ('%H%M%S', 6), ('%m%d%H%M%S', 10)]
 
 
 def pkg_config():
@@ -209,7 +211,22 @@ def gen_config(rng, with_decimal=False, decimal_widths=(3, 6, 8, 12, 15)):
             fc.update(field_type='LLVAR', field_length=rng.choice([0, 11, 23]))
         else:
             fc.update(field_type='LLLVAR', field_length=rng.choice([0, 16]))
+        if with_decimal and r >= 0.80 and rng.random() < 0.4:
+            # typed values in variable-length elements (a configured length of 0 there means "no padding")
+            pyt = rng.choice(['int', 'decimal', 'datetime'])
+            fc['field_python_type'] = pyt
+            if pyt == 'datetime':
+                fc['field_date_format'] = rng.choice(DATE_FORMATS)[0]
         cfg[str(bit)] = fc
+    # the ORDER of the keys of a caller's configuration carries no meaning: a configuration loaded from JSON written with
+    # sort_keys=True has them in text order ('10', '100', '11', ..., '2'), one assembled at run time in any order
+    how = rng.random()
+    if how < 0.25:
+        cfg = {k: cfg[k] for k in sorted(cfg)}
+    elif how < 0.5:
+        keys = list(cfg)
+        rng.shuffle(keys)
+        cfg = {k: cfg[k] for k in keys}
     return cfg
 
 
@@ -237,6 +254,21 @@ def gen_datetime(rng, fmt):
     return datetime.datetime(year, month, day, H, M, S)
 
 
+def nested_template(rng, n):
+    """n bytes that look like an EMV template: zero to two x'00' bytes, small TLVs, and a single tag byte at the very end.
+    A reader that wrongly walks INTO a value (instead of skipping it by its one-byte length) ends on that lone tag."""
+    # (for n = 128 + j the zeros are what a BER long-form reading of the length byte x'8j' would take as the length)
+    out = b'\x00' * (n - 128 if n in (129, 130) and rng.random() < 0.8 else rng.choice([0, 1, 2]))
+    while len(out) < n - 1:
+        room = n - 1 - len(out)
+        if room < 2:
+            out += b'\x5a'
+            continue
+        l = rng.randrange(0, min(room - 2, 12) + 1)
+        out += bytes([rng.choice([0x5a, 0x82, 0x95, 0x9a, 0x9c])]) + bytes([l]) + bytes(rng.getrandbits(8) for _ in range(l))
+    return out + bytes([rng.choice([0x5a, 0x82, 0x95])])
+
+
 def gen_tlvs(rng, maxlen=999):
     """complete TLVs under the module's tag rule (two-byte tags start with 9f / 5f; no 00 tag)"""
     out = b''
@@ -245,8 +277,12 @@ def gen_tlvs(rng, maxlen=999):
             tag = bytes([rng.choice([0x9f, 0x5f]), rng.randrange(256)])
         else:
             tag = bytes([rng.choice([x for x in range(1, 256) if x not in (0x9f, 0x5f)])])
-        ln = rng.choice([0, 1, 2, 8, rng.randrange(0, 40)])
-        item = tag + bytes([ln]) + bytes(rng.getrandbits(8) for _ in range(ln))
+        # lengths are ONE byte, 0..255 — values of 128 and more are not BER long-form markers in this format
+        ln = rng.choice([0, 1, 2, 8, rng.randrange(0, 40), rng.randrange(0, 40), rng.choice([127, 128, 129, 129, 130, 130, 200, 250])])
+        val = bytes(rng.getrandbits(8) for _ in range(ln))
+        if ln >= 127 and rng.random() < 0.7:
+            val = nested_template(rng, ln)
+        item = tag + bytes([ln]) + val
         if len(out) + len(item) > maxlen:
             break
         out += item
@@ -273,6 +309,12 @@ def gen_value(rng, fc, codec, length=None):
     if pyt == 'datetime':
         d = gen_datetime(rng, fc.get('field_date_format', '%y%m%d'))
         return d, d
+    if pyt == 'decimal' and ft in ('LLVAR', 'LLLVAR'):
+        n = rng.randrange(1, 19)
+        frac = rng.randrange(0, n - 1) if n > 2 else 0
+        s = text(rng, codec, n - frac - (1 if frac else 0), 'digits') + ('.' + text(rng, codec, frac, 'digits') if frac else '')
+        v = decimal.Decimal(s)
+        return v, v
     if pyt == 'decimal':
         w = fc['field_length']
         while True:
@@ -431,7 +473,10 @@ def ref_render(fc, v, codec):
                     raise RefError('numeric element given as text that int() does not accept')
             s = str(v).rjust(fc['field_length'], '0')
         elif pyt == 'decimal':
-            s = format(v, f"0{fc['field_length']}f")
+            # positional notation, zero-filled after the sign up to the configured width (none for a width of 0)
+            s = format(v, 'f')
+            sign, digits = ('-', s[1:]) if s.startswith('-') else ('', s)
+            s = sign + digits.rjust(max(0, fc['field_length'] - len(sign)), '0')
         elif pyt == 'datetime':
             s = v.strftime(fc.get('field_date_format', '%y%m%d'))
         else:
